@@ -17,7 +17,8 @@ EXTENDS Naturals, Sequences, FiniteSets, TLC, Json, SequencesExt
 \* ---------------------------------------------------------------------------
 \* Part A - typing of one returned value
 \* ---------------------------------------------------------------------------
-TypeClasses == {"none", "int", "str", "list_int", "dict_str_int", "int_or_none", "opt_str", "union_int_str", "literal", "model"}
+TypeClasses == {"none", "int", "str", "list_int", "list_str", "dict_str_int", "dict_str_str", "int_or_none", "opt_str", "opt_int", "union_int_str", "union_str_float",
+                "literal", "literal2", "model", "model2"}
 ValueClasses == {"None", "conforming", "coercible", "nonconforming", "exception", "event"}
 \* outcome of update(result = v): status, what is stored, the error kind
 Typed(tc, vc) ==
